@@ -14,7 +14,7 @@
    operations, each naming its arguments by position in the growing pool of meshes. *)
 From Coq Require Import List NArith ZArith Bool Arith.
 From PF Require Import Gen.Closed Gen.Sphere Gen.Hemisphere Gen.Cylinder Gen.Cube.
-From PF Require Import Mesh.Pure Mesh.PureLemmas Mesh.PureProofs Mesh.GenWf Mesh.GenIdx Mesh.GenIdxProofs Mesh.GenCompose.
+From PF Require Import Mesh.Pure Mesh.PureLemmas Mesh.PureProofs Mesh.GenWf Mesh.GenIdx Mesh.GenIdxProofs Mesh.GenCompose Mesh.GenIntern.
 Import ListNotations.
 Close Scope N_scope.
 Open Scope nat_scope.
@@ -98,7 +98,8 @@ Print Assumptions wf_accessors_in_range.
    length.)  Operations: Append, Unweld, RemovedUnreferencedVertices, RemoveNullFaces3D (any area
    test), FlipTriangleWinding, ToPointCloud, FilterFloat1..4 (any predicate), CropFloat3Attribute,
    SplitOnUniqueMaterials, WeldByFloat3Attribute (any rounding key), SetIndices, SetFloatNAttribute,
-   SetMaterials, repeat.Mesh, Translate/Scale/Rotate/ApplyTRS/Center attribute transforms. *)
+   SetMaterials, repeat.Mesh, Translate/Scale/Rotate/ApplyTRS/Center attribute transforms,
+   SliceByPlaneWithAttribute (any side test; both halves), ScaleAttributeAlongNormal. *)
 Theorem wf_closed_ops : forall o ins, Forall wf ins -> op_pre o ins = true ->
   match step o ins with Ok ms => Forall wf ms | Declared => True | Crash => False end.
 Proof. exact step_wf. Qed.
@@ -151,6 +152,37 @@ Theorem repeat_wf : forall pos m ts, wf m ->
   match repeat_mesh pos m ts with Ok ms => Forall wf ms | Declared => True | Crash => False end.
 Proof. exact repeat_mesh_wf. Qed.
 Print Assumptions repeat_wf.
+
+(* SliceByPlaneWithAttribute, for EVERY side test (so every plane): both returned halves are well-formed;
+   other topologies / a missing attribute are a declared failure (after fixes/C02-slice-requires-triangles:
+   the pinned code cut a quad mesh's index list into threes and returned quad meshes with 3 indices) *)
+Theorem slice_wf : forall a clip m, wf m ->
+  match slice a clip m with Ok ms => Forall wf ms /\ length ms = 2 | Declared => True | Crash => False end.
+Proof.
+  intros a clip m W. pose proof (PureProofs.slice_wf a clip m W) as H. unfold slice in *.
+  destruct (topology m); try exact I. destruct (lookup (3%N, a) (attrs m)); [|exact I]. split; [exact H|reflexivity].
+Qed.
+Print Assumptions slice_wf.
+
+Theorem scale_along_normal_wf : forall a nrm amt m, wf m ->
+  match scale_along_normal a nrm amt m with Ok ms => Forall wf ms | Declared => True | Crash => False end.
+Proof. exact PureProofs.scale_along_normal_wf. Qed.
+Print Assumptions scale_along_normal_wf.
+
+(* "every mesh returned ... IS well-formed" - and stays so: results are values.  However a history is
+   continued (h2 after h1: any operations, on any of the meshes, the result in question included), every
+   mesh of the pool after h1 is still in the pool, unchanged, and well-formed.  (The implementation shares
+   backing arrays between a result and its inputs; that no later call writes through them is what the
+   retained-value stream of the check - case CKeep - observes on the real Go values on every run.) *)
+Theorem results_stay_wellformed : forall h1 h2 pool i m, Forall wf pool ->
+  nth_error (run h1 pool) i = Some m ->
+  nth_error (run (h1 ++ h2) pool) i = Some m /\ wf m.
+Proof. intros h1 h2 pool i m F H. rewrite run_app. apply run_keeps_wf; assumption. Qed.
+Print Assumptions results_stay_wellformed.
+
+Theorem history_only_adds : forall h pool, exists ext, run h pool = pool ++ ext.
+Proof. exact run_extends. Qed.
+Print Assumptions history_only_adds.
 
 (* generators: the primitives whose index formulas are modelled in Gen/*.v (C18); the others follow below
    (Mesh/GenIdx.v, Mesh/GenCompose.v).  Marching cubes and triangulation: wfb on every output only.
@@ -211,6 +243,34 @@ Theorem wf_generators_composed :
      match repeat_mesh pos base ts with Ok ms => Forall wf ms | Declared => True | Crash => False end).
 Proof. split; [exact append_all_wf|split; [exact append_all_ok|exact repeat_mesh_wf]]. Qed.
 Print Assumptions wf_generators_composed.
+
+(* marching cubes and Bowyer-Watson: their index lists are not formulas of the parameters, but the way the
+   mesh is ASSEMBLED makes it well-formed whatever the geometry decides (Mesh/GenIntern.v):
+   - marching: in every block each emitted triangle corner goes through LookupOrAdd (found by its rounding
+     key, or appended to the vertex array - the index is its position there); the block meshes are folded
+     with Append from the empty mesh, welded and scaled.  For EVERY list of emitted corner positions per
+     block, every rounding key of the interning and of the weld, every scale;
+   - BowyerWatson: one vertex per input point; the clean-up keeps the triangles none of whose corners is a
+     super-triangle vertex.  For EVERY triangle list the insertion loop may have produced.
+   The check ties both to the implementation through their observable consequences (CGenI GMarch: no
+   unreferenced vertex; CGenI (GBw n): one vertex per input point) next to wfb on every output. *)
+Theorem wf_generators_marching_triangulation :
+  (forall (K : Type) (keq : K -> K -> bool) keyf a tris, wf (block_mesh keq keyf a tris)) /\
+  (forall (K : Type) (keq : K -> K -> bool) keyf wkey a blocks origin amount,
+     match marching_mesh keq keyf wkey a blocks origin amount with
+     | Ok ms => Forall wf ms | Declared => True | Crash => False end) /\
+  (forall pos tex n tris, wf (bw_mesh pos tex n tris)).
+Proof.
+  split; [intros; apply block_mesh_wf|]. split; [intros; apply marching_mesh_wf|exact bw_mesh_wf].
+Qed.
+Print Assumptions wf_generators_marching_triangulation.
+
+(* non-vacuity of the interning builder: two triangles sharing an edge give 4 vertices and 6 indices *)
+Example block_mesh_example :
+  let t1 := ([0; 0; 0], [1; 0; 0], [0; 1; 0])%Z in let t2 := ([1; 0; 0], [1; 1; 0], [0; 1; 0])%Z in
+  indices (block_mesh vec_eqb (fun v => v) 0%N [t1; t2]) = [0; 1; 2; 1; 3; 2]
+  /\ nverts (block_mesh vec_eqb (fun v => v) 0%N [t1; t2]) = 4.
+Proof. vm_compute. split; reflexivity. Qed.
 
 (* non-vacuity: a mesh with an unreferenced vertex (3), duplicated vertices (0 and 4 carry the same
    values) and two attributes is well-formed; a history of six operations on it (weld, append with
